@@ -51,7 +51,12 @@ def record_problem(result):
             return 'non-canonical-error-code'
         if result['result'] is not None:
             return 'result-not-empty-with-error'
-    if isinstance(result['result'], _xlerror()):
+    try:
+        is_err = isinstance(result['result'], _xlerror())
+    except Exception:
+        # the oracle must survive what the code under test has to survive: a host value that refuses to tell its class
+        is_err = issubclass(type(result['result']), _xlerror())
+    if is_err:
         return 'result-is-error-object'
     return None
 
